@@ -220,8 +220,15 @@ class SecDict:
             return None
         i = idx(rng)
         s = secs[i % len(secs)]
-        how = P.pick(rng, ["set", "set", "get", "del", "contains", "iter"])
+        how = P.pick(rng, ["set", "set", "set", "set", "get", "get", "del", "del", "contains", "contains", "iter", "iter",
+                           "set_S"])
         keys = sorted(names_of(s.props) | names_of(s.sections))
+        if how == "set_S":
+            # sec[key] = nixio.S(type): dictionary-style creation of a subsection
+            if s.depth() + 1 >= run.knobs["max_depth"] or len(s.sections) >= run.knobs["max_branch"]:
+                return None
+            return {"op": "sec_dict", "sec": i, "how": "set_S", "key": gen_name(run, rng, names_of(s.sections)),
+                    "type": P.pick(rng, [t for t in P.TYPES if t]) , "via": gen_via(run, rng)}
         if how == "set":
             if keys and rng.random() < 0.5:
                 k = P.pick(rng, sorted(names_of(s.props)) or keys)
@@ -248,6 +255,26 @@ class SecDict:
             return res(NOOP)
         pm = next((p for p in s.props if p.name == key), None)
         sm = next((x for x in s.sections if x.name == key), None)
+        if how == "set_S":
+            sobj = nixio.S(o["type"])
+            r = run.call(lambda: h.__setitem__(key, sobj))
+            if sm is not None:
+                run.expect_refused(r, "sec_setitem_S", "duplicate_name")
+                return res(REFUSED)
+            run.expect_ok(r, "sec_setitem_S")
+            r2 = run.call(lambda: h.sections[key])
+            if r2[0] == "exc":
+                run.violation("sec_dict_mismatch", "sec_setitem_S", "not_in_sections:" + type(r2[1]).__name__,
+                              "sec[%r] = S(..) succeeded but sec.sections[%r] raised %r" % (key, key, r2[1]))
+            sh = r2[1]
+            r3 = run.call(lambda: (sobj.section.id, sh.type))
+            if r3[0] == "exc" or r3[1] != (sh.id, o["type"]):
+                run.violation("sec_dict_mismatch", "sec_setitem_S", "proxy", "S proxy -> %r, section %r/%r" % (r3[1], sh.id, o["type"]))
+            m = M.MSection(key, o["type"], sh.id, s)
+            s.sections.append(m)
+            run.remember(m, sh)
+            run.stats["sections_created_dict_style"] += 1
+            return res(OK, touch={s.id: "may"}, new=[m.id], target=m)
         if how == "set":
             vals = o["vals"]
             if len(s.props) >= 12 and pm is None:
